@@ -123,6 +123,12 @@ def gen_probe_op(rng, trs_pool=None):
 def _perturb(rng, op):
     """Same text / strings as ``op`` but other settings (config, keywords)."""
     op = copy.deepcopy(op)
+    if "text" in op and op["p"] in ("desc", "desc_wait") and rng.random() < 0.15:
+        # someone asked for the layout of the very same text before
+        return {"p": "deduce", "text": op["text"],
+                "candidates": rng.choice((["TRS_desc"], ["desc_STR", "S_desc_TR"],
+                                          ["TR_desc_S"], ["copy_all"], None)),
+                "config": op.get("config") if rng.random() < 0.5 else None}
     if "config" in op and rng.random() < 0.5:
         # exactly one pipeline setting differs from the probe's own call
         name = rng.choice(("ocr_scrub", "default_ns", "default_ew", "clean_qq",
@@ -225,9 +231,14 @@ def gen_plan(rng):
                 # the probe's own text / strings under OTHER settings
                 prior.append({"o": "other",
                               "probe": _perturb(rng, rng.choice(probe))})
-            elif r_ < 0.39:
+            elif r_ < 0.40:
+                # many objects; for Tracts: up to just below a round value
+                # of the process-wide creation counter, so that the probe's
+                # own tracts straddle it
+                boundary = rng.choice((100, 256, 1000, 1024, 4096, 10000))
                 prior.append({"o": "bulk", "n": rng.choice((200, 1200, 3000)),
-                              "kind": rng.choice(("trs", "tract"))})
+                              "kind": rng.choice(("trs", "tract", "tract")),
+                              "uid_target": boundary - rng.randint(0, 4)})
             else:
                 prior.append({"o": "other", "probe": gen_probe_op(rng, trs_pool)})
         elif k == "prewarm":
@@ -302,7 +313,8 @@ def _run_probe_op(pytrs, op, hooks=None):
     p = op["p"]
     if p == "desc":
         d = pytrs.PLSSDesc(op["text"], config=op["config"], **op["kw"])
-        return enc(d), d
+        return [enc(d), d.pretty_desc(), d.quick_desc(),
+                [t.pretty_twprge() for t in d.tracts]], d
     if p == "desc_wait":
         d = pytrs.PLSSDesc(op["text"], config=op["config"], wait_to_parse=True)
         if hooks:
@@ -312,7 +324,7 @@ def _run_probe_op(pytrs, op, hooks=None):
     if p == "tract":
         t = pytrs.Tract(op["text"], trs=op["trs"], config=op["config"],
                         **op["kw"])
-        return enc(t), t
+        return [enc(t), t.pretty_twprge(), t.quick_desc()], t
     if p == "tract_from":
         tw = op["tw"]
         t = pytrs.Tract.from_twprgesec(op["text"], tw[0], tw[1], tw[2],
@@ -327,7 +339,8 @@ def _run_probe_op(pytrs, op, hooks=None):
         return [r, enc(t)], t
     if p == "trs":
         t = pytrs.TRS(op["s"])
-        return enc(t), t
+        return [enc(t), t.pretty_twprge(), str(t), t.is_error(),
+                t.is_undef()], t
     if p == "trs_from":
         tw = op["tw"]
         t = pytrs.TRS.from_twprgesec(tw[0], tw[1], tw[2], **op["kw"])
@@ -582,8 +595,15 @@ def run(prior, probe, mc_between=None, with_prior=True, mc_script=None):
                         pytrs.TRSList([f"{1 + j % 150}n{1 + j // 150}w{1 + j % 36:02d}"
                                        for j in range(op["n"])])
                     else:
-                        for j in range(op["n"]):
+                        n_ = op["n"]
+                        uid = getattr(pytrs.Tract, "_Tract__UID", None)
+                        tgt = op.get("uid_target")
+                        if isinstance(uid, int) and tgt and uid < tgt <= uid + 12000:
+                            n_ = tgt - uid
+                            bump("bulk_to_counter_boundary")
+                        for j in range(n_):
                             pytrs.Tract("NE/4", trs=f"{1 + j % 150}s{1 + j // 150}e01")
+                        op = dict(op, n=n_)
                     bump("bulk_objects", op["n"])
                 elif o == "prewarm":
                     for s in op["strings"]:
